@@ -273,7 +273,7 @@ def streams_for(pid, r, tier):
         return pad_stream(r, tier)
     if pid == "C14":
         out = []
-        for q, m in build_stream(r, tier, ("compound",)):
+        for q, m in build_stream(r, tier, ("compound",), big=True):
             out.append((q, m))
             if not gen.violations(m["cfg"]):
                 leaves = gen.flatten(m["cfg"])
@@ -371,7 +371,7 @@ def project(pid, t, meta):
                 out[k] = cls(v) if pid in ("C07", "C17") else v
             elif k == "size":
                 out[k] = cls(v) if pid in ("C07", "C17") else v
-            elif k.startswith("rt.") and pid in ("C14", "C19", "C20"):
+            elif k.startswith("rt.") and pid in ("C14", "C19"):
                 out[k] = v
         return out
     if pid == "C08":
